@@ -26,7 +26,7 @@ def prop_of(m):
 
 def api_leg(ck, prop):
     q = ck.quick()
-    r2 = ck.tlc("api", "MCMgmtApi", "Api2.cfg", timeout=900, label="management API: all histories of 2 calls; paging complete, refused calls change nothing")
+    r2 = ck.tlc("api", "MCMgmtApi", "Api2.cfg", timeout=900, label="management API: all histories of 2 calls; refused calls change nothing")
     ck.model(r2)
     re_ = ck.tlc("api", "MCMgmtApi", "ApiEdgesQ.cfg" if q else "ApiEdges.cfg", workers=1, timeout=1800, label="management API: first history per class of call")
     ck.model(re_)
@@ -58,4 +58,5 @@ def api_leg(ck, prop):
     if others:
         ck.notes.append("%d deviations of the management API belong to other properties' checks (C03 / C05 / C11 / C18)" % others)
     ck.assumptions += ["management API: listing streams and reading one stream's information is open to every authenticated user (service/apis.go roleInterceptor says so explicitly); everything else is for administrators",
+                       "management API: names and patterns are written as stored or with a capital letter (the same entry is meant); passwords are set on creation and on update only with update_password=1; login succeeds exactly with the password the user has now",
                        "management API: an empty page of the stream listing carries an empty next token while the route and user listings repeat the token given (modelled as found, not judged)"]
